@@ -188,11 +188,22 @@ def gen_sched_script(rs: int, knobs: Optional[dict] = None) -> dict:
                 sp: Dict[str, Any] = {}
                 if r.random() < kn["p_send_delay"]:
                     sp["delay_us"] = r.choice([1, 1000, 100_000, 900_000, 1_500_000, 2_000_000])
+                    if r.random() < 0.2:
+                        sp["delay_us"] = r.choice([61_000_000, 100_000_000, 125_000_000])     # a send that is in flight across one or two later polls
                 if faults and r.random() < kn["p_send_fail"] * 3:
                     sp["fail"] = True
                 lst.append(sp)
             lst.append({})
             kicks[sid] = lst
+    if faults and r.random() < 0.06:
+        # directed: a one-shot whose send is still in flight (slow broker) while a later poll of its source fails to list
+        cands = [(i, sc) for i, src in enumerate(sources) if src["kind"] == "scripted" for sc in src["schedules"] if sc.get("time") is not None]
+        if cands:
+            i, sc = r.choice(cands)
+            kicks[sc["id"]] = [{"delay_us": r.choice([70_000_000, 100_000_000, 125_000_000])}, {}]
+            # poll indices after the one in which it becomes due
+            due_poll = max(0, (sc["time"]["us"] - start_us) // 60_000_000)
+            sources[i]["fail_calls"] = sorted(set(sources[i].get("fail_calls", [])) | {int(due_poll) + r.choice([1, 2])})
     # keep a poll from straddling a minute boundary (listing latency / cpu stalls at :59.9)
     max_list = max([s.get("list_delay_us", 0) for s in sources] + [0])
     sec_us = start_us % 60_000_000
